@@ -60,6 +60,9 @@ func init() {
 	mutant(&Mutant{Name: "c06-attr-whitespace-refs-decoded", Property: "C06", File: "xml/xml.go",
 		Old: "val = parse.ReplaceEntities(val, EntitiesMap, AttrRevEntitiesMap)", New: "val = parse.ReplaceEntities(val, EntitiesMap, TextRevEntitiesMap)",
 		Rule: "R06.4", Construct: "ReplaceEntities(val)"})
+	mutant(&Mutant{Name: "c06-peek-reuse-without-compaction", Property: "C06", File: "xml/buffer.go",
+		Old: "\t\t} else {\n\t\t\tbuf = z.buf\n\t\t}\n\t\tcopy(buf[:d], z.buf[z.pos:])\n", New: "\t\t\tcopy(buf[:d], z.buf[z.pos:])\n\t\t} else {\n\t\t\tbuf = z.buf\n\t\t}\n",
+		Rule: "R06.8", Construct: "unread tokens moved"})
 	mutant(&Mutant{Name: "c07-guard-includes-plus", Property: "C07", File: "json/json.go",
 		Old: "('0' <= text[0] && text[0] <= '9' || text[0] == '-')", New: "('+' <= text[0] && text[0] <= '9' || text[0] == '-')",
 		Rule: "R07.1", Construct: "number guard"})
@@ -78,6 +81,7 @@ func init() {
 // C06
 
 func runC06(c *Ctx) {
+	defer c.tokenBuffer("R06.8", "xml")
 	const r1, r2, r3 = "R06.1", "R06.2", "R06.3"
 	c.R.Rule(r1, "the `switch t.TokenType` of xml.(*Minifier).Minify has a case for every constant of parse/v2/xml.TokenType except CommentToken (comments are the only nodes removed); in every case other than ErrorToken, every path from the case to the next token passes a w.Write(…) on the output writer; the only token skipped before the switch is the CDATA section with empty text")
 	c.R.Rule(r2, "assuming o.KeepWhitespace: the trim of the last space of a text token before a start/end tag is unreachable, and in the StartTagToken and EndTagToken cases every path passes `omitSpace = false` (the next text keeps its leading space)")
@@ -574,7 +578,7 @@ func evalBytePred(info *types.Info, e ast.Expr, v string, b int64) (bool, bool) 
 func runC07(c *Ctx) {
 	runC07own(c)
 	// JSON numbers are rewritten by minify.Number: its value-level shape rules are necessary for `numerically equal`
-	c.alsoUnder(map[string]string{"R08.3": "R07.4", "R08.4": "R07.5", "R08.5": "R07.6"}, func(construct string) bool {
+	c.alsoUnder(map[string]string{"R08.3": "R07.4", "R08.4": "R07.5", "R08.5": "R07.6", "R08.6": "R07.7"}, func(construct string) bool {
 		return strings.Contains(construct, "minify.Number") || strings.HasPrefix(construct, "floor/")
 	}, func() { runC08(c) })
 }
